@@ -86,9 +86,10 @@ inductive ConvSpec
   | shocSimple
   /-- `ArakawaC(ds, coordinate_names=…)` / `ShocStandard(ds)`: kind ↦ [latitude, longitude] -/
   | arakawaC (coords : List (String × List String))
-  /-- `UGrid(ds, topology_key=…)`; `validRoles` = the optional connectivity roles whose
-  variable passes the dimension checks of `Mesh2DTopology.has_valid_*` (abstract here) -/
-  | ugrid (topologyKey : Option String) (validRoles : List String)
+  /-- `UGrid(ds)`; `validRoles` = the optional connectivity roles whose variable passes the
+  dimension checks of `Mesh2DTopology.has_valid_*` (abstract here).  `UGrid.topology` never
+  passes a `topology_key`, the mesh variable is always discovered. -/
+  | ugrid (validRoles : List String)
 deriving Repr
 
 /-! ### CF grids -/
@@ -102,6 +103,13 @@ def isLatitude (v : VarView) : Bool :=
 def isLongitude (v : VarView) : Bool :=
   (match v.attr "units" with | some u => Gen.cfLonUnits.contains u | none => false)
     || v.attr "standard_name" == some "longitude" || v.attr "axis" == some "X"
+
+/-- `CFGridTopology.latitude_name` / `longitude_name`: the name given to the constructor,
+else the first variable (in `dataset.variables` order) that passes the test. -/
+def discover (given : Option String) (test : VarView → Bool) (ds : Views) : Option String :=
+  match given with
+  | some n => some n
+  | none => (ds.find? test).map (·.name)
 
 /-- `CFGrid.get_all_geometry_names` once the two coordinate names are known:
 longitude, latitude, then the `bounds` of each that exist as variables. -/
@@ -194,8 +202,7 @@ def inventoryOf (spec : ConvSpec) (ds : Views) : Option (List String) :=
   match spec with
   | .cfGrid lat lon =>
     -- `names = [longitude_name, latitude_name]` first, each discovered unless given
-    match (match lon with | some n => some n | none => (ds.find? isLongitude).map (·.name)),
-          (match lat with | some n => some n | none => (ds.find? isLatitude).map (·.name)) with
+    match discover lon isLongitude ds, discover lat isLatitude ds with
     | some lo, some la => cfNames ds la lo
     | _, _ => none
   | .shocSimple =>
@@ -203,7 +210,7 @@ def inventoryOf (spec : ConvSpec) (ds : Views) : Option (List String) :=
     | some la, some lo => cfNames ds la lo
     | _, _ => none
   | .arakawaC coords => arakawaNames ds coords
-  | .ugrid key valid => ugridNames ds key valid
+  | .ugrid valid => ugridNames ds none valid
 
 /-- `convention.get_all_geometry_names()` -/
 def inventory (spec : ConvSpec) (ds : Dataset) : Option (List String) := inventoryOf spec ds.views
